@@ -314,29 +314,31 @@ fn fifo_writer(path: String, content: String) -> std::thread::JoinHandle<bool> {
 }
 
 /// `duck <named pipe>`: the executable must do what the library does with a file of that name
-/// and content (the library run reads the same pipe, fed a second time)
+/// and content.  The library's answer is taken from a REGULAR file with the same content and the
+/// file name replaced in its texts: reading the pipe in-process would leave a read end open that
+/// a child forked by another worker thread at that moment inherits until its exec — the feeder of
+/// the executable's run can then connect to that stray end and the text is lost (seen as a
+/// time-out of the unchanged executable under load; the pipe is now opened by the executable only).
 fn run_fifo_case(content: &str) -> String {
     let path = temp_path();
     let _guard = TempFile(path.clone());
+    let plain = temp_path();
+    let _guard2 = TempFile(plain.clone());
+    if std::fs::write(&plain, content).is_err() {
+        return "fifo NO-TEMP-FILE".to_string();
+    }
+    let lib = match run_library(&plain, true) {
+        Some((out, res)) => (out.replace(&plain, &path), res.map_err(|e| e.replace(&plain, &path))),
+        None => return "fifo library-watchdog".to_string(),
+    };
     match Command::new("mkfifo").arg(&path).status() {
         Ok(st) if st.success() => {}
         _ => return "fifo NO-MKFIFO".to_string(),
     }
     let w = fifo_writer(path.clone(), content.to_string());
-    let lib = run_library_known(&path, true, Some(content));
-    let fed_lib = w.join().unwrap_or(false);
-    let w = fifo_writer(path.clone(), content.to_string());
     let obs = run_duck(&[path.clone()], None);
     let fed_cli = w.join().unwrap_or(false);
-    if !fed_lib {
-        return "fifo library-did-not-read".to_string();
-    }
-    match lib {
-        Some(lib) => {
-            if fed_cli && !obs.timed_out && matches_library(&obs, &lib) { "fifo-ok".to_string() } else { format!("{} fed={}", nomatch(&obs), fed_cli) }
-        }
-        None => "fifo library-watchdog".to_string(),
-    }
+    if fed_cli && !obs.timed_out && matches_library(&obs, &lib) { "fifo-ok".to_string() } else { format!("{} fed={}", nomatch(&obs), fed_cli) }
 }
 
 fn run_lint_case(text: &str) -> String {
@@ -462,7 +464,8 @@ fn mixed_line(rng: &mut Rng) -> String {
         1 => format!("{} = set {}", rng.pick_s(&MIXED_NAMES), rng.pick_s(&WORDS)),
         2 => format!("{} {}", rng.pick_s(&["Echo", "ECHO", "eCho", "Set", "std::Echo"]), words(rng)),
         // the full `package::Name` spelling of a command: its last part is not lower-case
-        8 => format!("{}{} {}", if rng.chance(1, 3) { "x = " } else { "" }, rng.pick_s(&["std::Echo", "std::collections::Array", "std::IsDefined", "std::string::IsEmpty", "std::Noop", "My::print", "a::B"]), rng.pick_s(&["a", "x1", "hello"])),
+        // (no command that returns a HANDLE: handle names are random, `echo ${x}` would differ between two runs)
+        8 => format!("{}{} {}", if rng.chance(1, 3) { "x = " } else { "" }, rng.pick_s(&["std::Echo", "std::IsDefined", "std::string::IsEmpty", "std::string::Equals", "std::Noop", "My::print", "a::B"]), rng.pick_s(&["a", "x1", "hello"])),
         3 => format!("{} {} = {} a", rng.pick_s(&MIXED_LABELS), rng.pick_s(&MIXED_NAMES), rng.pick_s(&["Echo", "echo"])),
         4 => rng.pick_s(&MIXED_LABELS).to_string(),
         // an output variable without a command (the documented way to unset it)
